@@ -125,7 +125,9 @@ def run(ctx):
         "per-goroutine id sequences are judged by TLC against the abstract action 'Draw returns an id never returned before' "
         "(pairwise distinct). Cross-talk: %d independent scenarios (construction histories of the OFGen.tla corpus, built, encoded, "
         "parsed back and projected; frames of the OFSwGen.tla corpus parsed, projected and re-encoded) are processed once sequentially and "
-        "then concurrently by %s goroutines; TLC requires every concurrent observation to equal the sequential one and no race report."
+        "(fresh input slices), again in reverse order and then concurrently by %s goroutines, each parsing out of its own reused receive "
+        "buffer and projecting a value only after the next frame has overwritten that buffer (as the stream's pooled buffers do); TLC "
+        "requires every later observation to equal the sequential one and no race report."
         % (ctx.extra["model"]["draws"], gs, mps, ctx.extra["conc_scenarios"], ctx.extra["conc_goroutines"]),
         viol, [],
         ["interleavings of the real goroutines are stress-sampled, not enumerated; race freedom is the Go race detector's verdict on the executions performed",
